@@ -190,8 +190,36 @@ func (g *Gen) Aliasing(pn int) [][]string {
 	default:
 		return nil
 	}
+	// one command that stores SEVERAL of its arguments, then a command that grows or patches the first of them: however the
+	// arguments of a command are laid out in memory (one buffer, a decoded log entry), the values are independent
+	var extras [][][]string
+	switch g.Family {
+	case "string":
+		extras = [][][]string{
+			{{"mset", a, "ab", b, "cd"}, {"append", a, "xyz01"}, {"get", a}, {"get", b}, {"append", b, "q"}, {"get", a}, {"get", b}, {"del", a, b}}, // fits the room behind "ab" exactly
+			{{"mset", a, "ab", b, "cdefgh"}, {"append", a, "xyz0"}, {"get", a}, {"get", b}, {"del", a, b}},
+			{{"mset", a, "ab", b, "cd"}, {"append", a, "x"}, {"append", a, "y"}, {"append", a, "z0123"}, {"get", a}, {"get", b}, {"del", a, b}},
+			{{"mset", a, "ab", b, "cd"}, {"setrange", a, "1", "wxyz0"}, {"get", a}, {"get", b}, {"del", a, b}},
+			{{"set", a, "ab", "ex", "100"}, {"append", a, "xyz"}, {"get", a}, {"ttl", a}, {"del", a}},
+			{{"setex", a, "100", "ab"}, {"append", a, "xyz0123456789"}, {"get", a}, {"ttl", a}, {"del", a}},
+			{{"mset", a, "", b, "cd"}, {"append", a, "xyz01"}, {"get", a}, {"get", b}, {"del", a, b}},
+		}
+	case "hash":
+		extras = [][][]string{
+			{{"hset", a, "f", "ab", "g", "cd"}, {"hincrbyfloat", a, "n", "1.5"}, {"hset", a, "f", "abxyz"}, {"hgetall", a}, {"del", a}},
+		}
+	case "list":
+		extras = [][][]string{
+			{{"rpush", a, "ab", "cd", "ef"}, {"lset", a, "0", "abxyz"}, {"lrange", a, "0", "-1"}, {"del", a}},
+		}
+	}
 	n := len(creators) * len(mutators)
-	i := pn % n
+	// (the extras come first: drivers that run only a handful of programmes - real clusters - still get them)
+	j := pn % (n + len(extras))
+	if j < len(extras) {
+		return extras[j]
+	}
+	i := j - len(extras)
 	c, m := creators[i/len(mutators)], mutators[i%len(mutators)]
 	fix := func(x []string) []string { // mset key value: the generic builder put the key first already
 		return x
